@@ -2238,16 +2238,20 @@ class Parameters:
         except Skip:
             value = Undefined
         if is_async:
-            async_executor(partial(self_._async_ref, pobj.name, value, ref))
+            # Without a running event loop the evaluation runs to completion
+            # right here, before the caller has installed the reference.
+            scheduled = []
+            async_executor(partial(self_._async_ref, pobj.name, value, ref, scheduled))
+            scheduled.append(True)
             value = None
         return ref, deps, value, is_async
 
-    async def _async_ref(self_, pname, awaitable, ref=None):
+    async def _async_ref(self_, pname, awaitable, ref=None, scheduled=(True,)):
         if not self_.self._param__private.initialized:
             async_executor(partial(self_._async_ref, pname, awaitable, ref))
             return
 
-        if ref is not None and self_.self._param__private.refs.get(pname) is not ref:
+        if ref is not None and scheduled and self_.self._param__private.refs.get(pname) is not ref:
             # The reference was overridden or replaced before this task
             # started: its result must not be applied any more.
             if hasattr(awaitable, 'close'):
